@@ -1,5 +1,5 @@
 (* C02sim_c -- per-state simulation lemmas (M_tok state method vs S_tok), see Proofs/C02sim.v and C02simtac.v.
-   Each lemma:  R m s -> st m = X -> wk m = true -> covered m = true -> simok s (step_X m). *)
+   Each lemma:  R m s -> st m = X -> wk m = true -> plain m = true -> simok s (step_X m). *)
 From Coq Require Import NArith List Bool Arith Lia ZifyBool ZifyN.
 From Verif Require Import Sx Str.
 From Verif.Gen Require Import Entities Tokenizer.
@@ -9,13 +9,13 @@ From Verif.Proofs Require Import C02a C02dict C08 C02sim C02simtac.
 Import ListNotations.
 Local Open Scope N_scope.
 
-Lemma sim_attributeNameState : forall m s, R m s -> st m = attributeNameState -> wk m = true -> covered m = true ->
+Lemma sim_attributeNameState : forall m s, R m s -> st m = attributeNameState -> wk m = true -> plain m = true ->
   simok s (step_attributeNameState m).
 Proof.
   intros m s HR Hst Hwk Hcov;
   destruct m as [ms mi mc mt mo mcd mb]; destruct s as [ss si sc st' so scd sb];
-  unfold R in HR; cbn [st inp cur tmp out cdata_ok bad] in *;
-  destruct HR as (Hs & Hi & Ht & Ho & Hcd & Hb & Hsb & Hc); subst;
+  unfold R, sst, sinp in HR; cbn [st inp cur tmp out cdata_ok bad] in *;
+  destruct HR as (Hs & Hi & Ht & Ho & Hcd & Hb & Hsb & Hc); subst; cbv beta iota;
   eval_eqb; prep_cur; prep_wk; prep_attrs; cbn [ncur] in *; eval_eqb; autorewrite with simdb.
   unfold step_attributeNameState.
   destruct mi as [|x r];
@@ -38,18 +38,18 @@ Proof.
   all: (batch_goal batch_name).
 Qed.
 
-Lemma sim_commentStartState : forall m s, R m s -> st m = commentStartState -> wk m = true -> covered m = true -> simok s (step_commentStartState m).
+Lemma sim_commentStartState : forall m s, R m s -> st m = commentStartState -> wk m = true -> plain m = true -> simok s (step_commentStartState m).
 Proof. sim_state step_commentStartState. Qed.
 
-Lemma sim_commentState : forall m s, R m s -> st m = commentState -> wk m = true -> covered m = true -> simok s (step_commentState m).
+Lemma sim_commentState : forall m s, R m s -> st m = commentState -> wk m = true -> plain m = true -> simok s (step_commentState m).
 Proof. sim_state step_commentState. all: (batch_goal batch_comment). Qed.
 
-Lemma sim_scriptDataEndTagNameState : forall m s, R m s -> st m = scriptDataEndTagNameState -> wk m = true -> covered m = true -> simok s (step_scriptDataEndTagNameState m).
+Lemma sim_scriptDataEndTagNameState : forall m s, R m s -> st m = scriptDataEndTagNameState -> wk m = true -> plain m = true -> simok s (step_scriptDataEndTagNameState m).
 Proof. sim_state step_scriptDataEndTagNameState. Qed.
 
-Lemma sim_scriptDataEscapedDashState : forall m s, R m s -> st m = scriptDataEscapedDashState -> wk m = true -> covered m = true -> simok s (step_scriptDataEscapedDashState m).
+Lemma sim_scriptDataEscapedDashState : forall m s, R m s -> st m = scriptDataEscapedDashState -> wk m = true -> plain m = true -> simok s (step_scriptDataEscapedDashState m).
 Proof. sim_state step_scriptDataEscapedDashState. Qed.
 
-Lemma sim_tagNameState : forall m s, R m s -> st m = tagNameState -> wk m = true -> covered m = true -> simok s (step_tagNameState m).
+Lemma sim_tagNameState : forall m s, R m s -> st m = tagNameState -> wk m = true -> plain m = true -> simok s (step_tagNameState m).
 Proof. sim_state step_tagNameState. Qed.
 
